@@ -2,18 +2,42 @@
 (***************************************************************************)
 (* SCAN through the proxy (C18): the proxy presents the nodes of the       *)
 (* cluster as one key space by encoding (node index, node cursor) into     *)
-(* the cursor it hands to the client (request.go:359-402, handler.go:      *)
-(* 240-260): high 16 bits node index into the sorted host list, low 48     *)
-(* bits the node's own cursor; when a node reports cursor 0 the index      *)
-(* advances; an index past the last node yields the terminal reply.        *)
+(* the cursor it hands to the client (request.go scanRequest, handler.go   *)
+(* handleScan): high 16 bits node index into the sorted healthy host list, *)
+(* low 48 bits the node's own cursor; when a node reports cursor 0 the     *)
+(* index advances; an index past the last node yields the terminal reply.  *)
 (* Node cursors are symbolic: Base stands for 2^48 (the replayer maps      *)
-(* Base-1 -> 2^48-1, Base/2 -> 2^47, Base/2-1 -> 2^47-1).                  *)
+(* Base-1 -> 2^48-1, Base/2 -> 2^47, Base/2-1 -> 2^47-1); IdxSpace stands  *)
+(* for 2^16 (node indexes are 16 bit values).                              *)
+(*                                                                         *)
+(* Three mechanisms besides the codec:                                     *)
+(* - the number of healthy hosts may be ZERO (a service without hosts yet, *)
+(*   all hosts withdrawn): every cursor is then past the last node.        *)
+(*   PastEndRule selects the comparison: "ge" is the code (idx >= number   *)
+(*   of hosts); "gt-last" is idx > number of hosts - 1 computed in 16 bits *)
+(*   which wraps for zero hosts and indexes an empty list (crash).         *)
+(* - Withdraw: service discovery removes hosts while the client holds a    *)
+(*   saved cursor; the saved cursor is then a client supplied cursor for   *)
+(*   the smaller host list (probe), after it a fresh iteration runs over   *)
+(*   the new, from then on unchanging, host list.                          *)
+(* - completion of a forwarded SCAN is not atomic: the goroutine that      *)
+(*   read the node's reply rewrites the cursor inside the shared response  *)
+(*   object (Rewrite) and publishes the response to the session (Publish = *)
+(*   closing the done latch of the raw request); the session writer        *)
+(*   encodes whatever the object holds once it is published (Encode).      *)
+(*   CompletionOrder "rewrite-publish" is the code, "publish-rewrite" lets *)
+(*   the writer encode the node's own cursor.                              *)
 (***************************************************************************)
-EXTENDS Naturals, Sequences, FiniteSets, TLC, TLCExt, Json
+EXTENDS Integers, Sequences, FiniteSets, TLC, TLCExt, Json
 
-CONSTANTS MaxNodes,     \* number of nodes 1..MaxNodes
-          Base,         \* stands for 2^48
-          MaxChain      \* node cursor chain length (non-zero cursors per node)
+CONSTANTS MinNodes,         \* number of nodes MinNodes..MaxNodes (0 = no healthy host)
+          MaxNodes,
+          Base,             \* stands for 2^48
+          MaxChain,         \* node cursor chain length (non-zero cursors per node)
+          IdxSpace,         \* stands for 2^16
+          PastEndRule,      \* "ge" (code) | "gt-last" (wraps for zero hosts)
+          CompletionOrder,  \* "rewrite-publish" (code) | "publish-rewrite"
+          Withdrawals       \* TRUE: hosts may be withdrawn once while the client holds a cursor
 
 CursorVals == {1, 2, (Base \div 2) - 1, Base \div 2, Base - 1}
 
@@ -21,54 +45,109 @@ CursorVals == {1, 2, (Base \div 2) - 1, Base \div 2, Base - 1}
 Chains == UNION {{s \in [1..m -> CursorVals] : \A i, j \in 1..m : i # j => s[i] # s[j]} : m \in 0..MaxChain}
 
 Compose(idx, cur) == idx * Base + cur
-ParseIdx(c) == c \div Base
+ParseIdx(c) == (c \div Base) % IdxSpace
 ParseCur(c) == c % Base
 
-\* node cursor following cur in chain ch (0 = start)
+\* node cursor following cur in chain ch (0 = start; a cursor the node never returned restarts it - any answer is allowed there)
 NextOf(ch, cur) ==
   IF cur = 0 THEN (IF Len(ch) = 0 THEN 0 ELSE ch[1])
-  ELSE LET p == CHOOSE i \in 1..Len(ch) : ch[i] = cur IN IF p = Len(ch) THEN 0 ELSE ch[p + 1]
+  ELSE IF \E i \in 1..Len(ch) : ch[i] = cur
+       THEN LET p == CHOOSE i \in 1..Len(ch) : ch[i] = cur IN IF p = Len(ch) THEN 0 ELSE ch[p + 1]
+       ELSE 0
 
-\* one SCAN call through the proxy with client cursor c over nodes ns (sequence of chains):
-\* result [node, sent, next]: node asked (0 = answered by the proxy), cursor sent to it, cursor returned to the client
-Call(ns, c) ==
+\* "already scanned all the nodes" for node index idx and n healthy hosts
+PastEnd(idx, n) ==
+  IF PastEndRule = "ge" THEN idx >= n
+  ELSE idx > ((n + IdxSpace - 1) % IdxSpace)
+
+\* one SCAN call through the proxy with client cursor c over nodes hs (sequence of chains):
+\* node asked (0 = answered by the proxy), cursor sent to it, the node's own next cursor (raw), the cursor the
+\* client must be given (next), crash = the host list is indexed out of range
+Call(hs, c) ==
   LET idx == ParseIdx(c)
       cur == ParseCur(c)
-  IN IF idx >= Len(ns) THEN [node |-> 0, sent |-> 0, next |-> 0]
-     ELSE LET nx == NextOf(ns[idx + 1], cur)
-          IN [node |-> idx + 1, sent |-> cur,
-              next |-> IF nx = 0 THEN Compose(idx + 1, 0) ELSE Compose(idx, nx)]
+  IN IF PastEnd(idx, Len(hs)) THEN [node |-> 0, sent |-> 0, raw |-> 0, next |-> 0, crash |-> FALSE]
+     ELSE IF idx >= Len(hs) THEN [node |-> idx + 1, sent |-> cur, raw |-> 0, next |-> 0, crash |-> TRUE]
+     ELSE LET nx == NextOf(hs[idx + 1], cur)
+          IN [node |-> idx + 1, sent |-> cur, raw |-> nx,
+              next |-> IF nx = 0 THEN Compose(idx + 1, 0) ELSE Compose(idx, nx), crash |-> FALSE]
 
-VARIABLES ns,        \* the cluster: sequence of chains
+VARIABLES ns,        \* the healthy hosts: sequence of chains
           cursor,    \* cursor the client holds
-          calls,     \* calls made so far: sequence of Call results
-          done
+          calls,     \* calls completed so far: Call results + got (cursor the client received)
+          done,
+          fly,       \* <<>> or <<the forwarded call being completed>>
+          epoch,     \* 0 before, 1 after the withdrawal
+          probe      \* <<>> or <<what the saved cursor met after the withdrawal>>
 
-vars == <<ns, cursor, calls, done>>
+vars == <<ns, cursor, calls, done, fly, epoch, probe>>
 
 Init ==
-  /\ ns \in UNION {[1..n -> Chains] : n \in 1..MaxNodes}
-  /\ cursor = 0 /\ calls = <<>> /\ done = FALSE
+  /\ ns \in UNION {[1..n -> Chains] : n \in MinNodes..MaxNodes}
+  /\ cursor = 0 /\ calls = <<>> /\ done = FALSE /\ fly = <<>> /\ epoch = 0 /\ probe = <<>>
 
-Step ==
-  /\ ~done
+Finished(r, got) == [node |-> r.node, sent |-> r.sent, raw |-> r.raw, next |-> r.next, crash |-> r.crash, got |-> got]
+
+\* the session reader parses the request; terminal replies are set by itself before the request is queued for the writer
+Send ==
+  /\ ~done /\ fly = <<>>
   /\ LET r == Call(ns, cursor) IN
-       /\ calls' = Append(calls, r)
-       /\ cursor' = r.next
-       /\ done' = (r.next = 0)
-  /\ UNCHANGED ns
+       IF r.node = 0 \/ r.crash
+       THEN /\ calls' = Append(calls, Finished(r, r.next))
+            /\ cursor' = r.next
+            /\ done' = TRUE
+            /\ fly' = fly
+       ELSE /\ fly' = <<[call |-> r, text |-> r.raw, rew |-> FALSE, pub |-> FALSE]>>
+            /\ UNCHANGED <<calls, cursor, done>>
+  /\ UNCHANGED <<ns, epoch, probe>>
 
-Emit ==
-  /\ done /\ PrintT("@@SCAN " \o ToJson([nodes |-> ns, calls |-> calls]))
-  /\ UNCHANGED vars
+\* backend reader goroutine: the node cursor inside the response becomes the composite cursor
+Rewrite ==
+  /\ fly # <<>> /\ ~fly[1].rew
+  /\ CompletionOrder = "rewrite-publish" \/ fly[1].pub
+  /\ fly' = <<[fly[1] EXCEPT !.text = fly[1].call.next, !.rew = TRUE]>>
+  /\ UNCHANGED <<ns, cursor, calls, done, epoch, probe>>
 
-Next == Step
+\* backend reader goroutine: raw.SetResponse closes the done latch, the session writer may look
+Publish ==
+  /\ fly # <<>> /\ ~fly[1].pub
+  /\ CompletionOrder = "publish-rewrite" \/ fly[1].rew
+  /\ fly' = <<[fly[1] EXCEPT !.pub = TRUE]>>
+  /\ UNCHANGED <<ns, cursor, calls, done, epoch, probe>>
+
+\* session writer goroutine: encodes the response object as it is now; the client feeds that cursor back
+Encode ==
+  /\ fly # <<>> /\ fly[1].pub
+  /\ calls' = Append(calls, Finished(fly[1].call, fly[1].text))
+  /\ cursor' = fly[1].text
+  /\ done' = (fly[1].text = 0)
+  /\ fly' = <<>>
+  /\ UNCHANGED <<ns, epoch, probe>>
+
+Step == Send \/ Rewrite \/ Publish \/ Encode
+
+SubSeqBy(s, S) == LET F[i \in 0..Len(s)] == IF i = 0 THEN <<>> ELSE IF i \in S THEN Append(F[i - 1], s[i]) ELSE F[i - 1] IN F[Len(s)]
+IdxSeq(n, S) == SubSeqBy([i \in 1..n |-> i], S)
+
+\* service discovery withdraws hosts (any proper subset stays); the client comes back with the cursor it holds
+Withdraw ==
+  /\ Withdrawals /\ epoch = 0 /\ fly = <<>> /\ Len(ns) > 0
+  /\ \E S \in (SUBSET (1..Len(ns))) \ {1..Len(ns)} :
+       LET keep == SubSeqBy(ns, S)
+           idx == ParseIdx(cursor)
+       IN /\ ns' = keep
+          /\ probe' = <<[before |-> ns, k |-> Len(calls), keep |-> IdxSeq(Len(ns), S), cursor |-> cursor,
+                         terminal |-> PastEnd(idx, Len(keep)),
+                         crash |-> ~PastEnd(idx, Len(keep)) /\ idx >= Len(keep)]>>
+  /\ epoch' = 1 /\ cursor' = 0 /\ calls' = <<>> /\ done' = FALSE /\ fly' = fly
+
+Next == Step \/ Withdraw
 Spec == Init /\ [][Next]_vars /\ WF_vars(Step)
 
 TotalSteps == LET F[i \in 0..Len(ns)] == IF i = 0 THEN 0 ELSE F[i - 1] + Len(ns[i]) + 1 IN F[Len(ns)]
 
 \* the iteration terminates after exactly one call per chain element plus the terminal call
-Terminates == <>done
+Terminates == <>[]done
 BoundedCalls == Len(calls) <= TotalSteps + 1
 ExactCalls == done => Len(calls) = TotalSteps + 1
 \* every node is asked its whole chain once, in node order
@@ -81,6 +160,23 @@ EachNodeOnceInOrder ==
 InOrder == \A i, j \in 1..Len(calls) : (i < j /\ calls[j].node # 0) => calls[i].node <= calls[j].node
 \* the composite cursor is lossless below Base
 CursorRoundTrip == \A i \in 0..MaxNodes : \A c \in CursorVals \cup {0} : ParseIdx(Compose(i, c)) = i /\ ParseCur(Compose(i, c)) = c
-\* a cursor past the last node is answered by the proxy with the terminal reply
-PastEndIsTerminal == \A i \in Len(ns)..(Len(ns) + 2) : Call(ns, Compose(i, 1)).next = 0 /\ Call(ns, Compose(i, 1)).node = 0
+\* a cursor past the last node is answered by the proxy with the terminal reply (for every number of hosts, zero included)
+PastEndIsTerminal ==
+  \A i \in Len(ns)..(IdxSpace - 1) :
+    LET r == Call(ns, Compose(i, 1)) IN r.next = 0 /\ r.node = 0 /\ ~r.crash
+NoCrash == \A i \in 1..Len(calls) : ~calls[i].crash
+\* the client is given the composite cursor, never the node's own
+DeliveredComposite == \A i \in 1..Len(calls) : calls[i].got = calls[i].next
+\* a cursor saved before hosts were withdrawn: never a crash; past the (new) last node: the terminal reply
+ResumeSafe ==
+  probe # <<>> => /\ ~probe[1].crash
+                  /\ (ParseIdx(probe[1].cursor) >= Len(ns)) => probe[1].terminal
+
+\* windows that must be reachable (checked as invariants that must be violated)
+W_NoHosts == Len(ns) = 0 /\ Len(calls) > 0
+W_AllWithdrawnMidIteration == probe # <<>> /\ Len(ns) = 0 /\ probe[1].cursor # 0
+W_WriterMayEncodeWhilePublisherRuns == fly # <<>> /\ fly[1].pub
+NotW_NoHosts == ~W_NoHosts
+NotW_AllWithdrawnMidIteration == ~W_AllWithdrawnMidIteration
+NotW_WriterMayEncodeWhilePublisherRuns == ~W_WriterMayEncodeWhilePublisherRuns
 =============================================================================
